@@ -7,6 +7,7 @@ layouts "x class", "class x", "x", "class". All statements hold for every datase
 shapes of any rank), configuration, index and tape; the generator's contract enters as `TapeOk`.
 -/
 import KDVerif.Lemmas.MixWrapper
+import KDVerif.Lemmas.C11Extra
 
 namespace KDVerif.C11
 open KDVerif.MixWrapper
@@ -264,5 +265,462 @@ example : modeGet ⟨1/2, 1/2, 1, some 1, some 1, none⟩ (fun _ => [.unif (1/4)
     rw [hc] at h
     simp only [beq_iff_eq] at h
     rw [h]
+
+/-! ## Theorems added after the audit (gaps 1–5)
+
+Vocabulary (`IsUntouched`, `IsMixOf`, `paddedEl`, `Gen`, `tapeFor`, `callTapes`, `CtorAccepts`, `cfgOf`) is in
+Model/C11Spec.lean and is written without reference to the recursion of `getitemXClass`. -/
+
+/-! ### gap 1 — full convexity -/
+
+/-- **Clause "either the untouched sample with a one-hot label or a convex combination of sample i and one
+    other sample of the same dataset, the label vector being mixed with the same partner and weight as the
+    data (shapes unified as configured)" — at full strength.** For every configuration (any `p`, any mode),
+    every dataset, index and tape obeying the generator contract `TapeOk`, a successful call returns
+    * either sample `i` itself with the one-hot row of its label (the single draw exceeded `total_p`),
+    * or, for ONE partner index `j < len(dataset)` and ONE weight `lam ∈ [0,1]` (the second and third draw),
+      a tensor of sample `i`'s rank and extents with
+      `x'[ι] = lam·x_i[ι] + (1-lam)·x_j[ι]` at every index `ι` of sample `i` (`x_j[ι]` read as `0` where `ι` lies
+      outside sample `j`: padding; entries of sample `j` outside sample `i` are cut), and the label row
+      `lam·e_{y_i} + (1-lam)·e_{y_j}` with the same `j` and `lam`.
+    Hypothesis `hrank` (domain of the property: with the pad/cut mode the samples of one dataset may differ in
+    their extents, not in their number of dimensions) is needed for the pad/cut mode only; with mode `None`
+    equal shapes are enforced by the code's assert. -/
+theorem mix_convex_full {cfg : Cfg} {tape : Tape} {ds : DS} {i : Nat} {x' : Ten} {l' : List Rat}
+    (h : getitemXClass cfg tape ds i = .ok (x', l')) (hok : TapeOk tape)
+    (hrank : cfg.unify = some .padOrCutEnd → ∀ j, j < ds.len → (ds.x i).rank = (ds.x j).rank) :
+    (∃ a, tape = [.unif a] ∧ a > cfg.totalP ∧ IsUntouched ds i x' l') ∨
+    (∃ a j alpha lam, tape = [.unif a, .int ds.len j, .beta alpha lam] ∧ ¬ a > cfg.totalP ∧
+      j < ds.len ∧ 0 ≤ lam ∧ lam ≤ 1 ∧ IsMixOf ds i j lam x' l') := by
+  cases mix_is_convex h with
+  | untouched a htape hgt hx hl =>
+    exact Or.inl ⟨a, htape, hgt, hx, c11x_oneHot_isOneHot hl⟩
+  | mixed a j alpha lam x2' c1 c2 htape hle hnocut hunify hx hc1 hc2 hl =>
+    have hj : j < ds.len := hok (.int ds.len j) (by rw [htape]; simp)
+    have hlam : 0 ≤ lam ∧ lam ≤ 1 := hok (.beta alpha lam) (by rw [htape]; simp)
+    obtain ⟨hci, hlen1, hg1⟩ := c11x_oneHot_isOneHot hc1
+    obtain ⟨hcj, hlen2, hg2⟩ := c11x_oneHot_isOneHot hc2
+    refine Or.inr ⟨a, j, alpha, lam, htape, hle, hj, hlam.1, hlam.2, ?_⟩
+    subst hx hl
+    refine ⟨rfl, rfl, ?_, hci, hcj, by simp [mixRow, hlen1, hlen2], ?_⟩
+    · intro ι hι
+      simp only [mixTen]
+      rw [c11x_unifyWith_el hunify (fun hm => hrank hm j hj) ι hι]
+    · intro k hk
+      rw [c11x_mixRow_getD lam c1 c2 k (by omega) (by omega), hg1 k hk, hg2 k hk]
+
+/-- non-vacuity: the witness call (different shapes, pad in dim 0, cut in dim 1) is of the mixed form with
+    partner `1` and weight `1/4` -/
+example : ∃ x' l', getitemXClass exCfg exTape exDS 0 = .ok (x', l') ∧ IsMixOf exDS 0 1 (1/4) x' l' := by
+  obtain ⟨x', l', h⟩ := ex_ok
+  refine ⟨x', l', h, ?_⟩
+  rcases mix_convex_full h ex_tapeOk (fun _ j hj => by
+      have : j = 0 ∨ j = 1 := by simp only [exDS] at hj; omega
+      rcases this with rfl | rfl <;> rfl) with ⟨a, ht, _⟩ | ⟨a, j, alpha, lam, ht, _, _, _, _, hm⟩
+  · simp [exTape] at ht
+  · simp only [exTape, List.cons.injEq, Draw.unif.injEq, Draw.int.injEq, Draw.beta.injEq, and_true] at ht
+    obtain ⟨_, ⟨_, hj⟩, _, hl⟩ := ht
+    rw [← hj, ← hl] at hm
+    exact hm
+
+/-- **Clause "a probability-one configuration mixes every sample" with the full description of the mix**:
+    with `total_p = 1` no successful call is of the untouched form. -/
+theorem p_one_mixes_convex {cfg : Cfg} {tape : Tape} {ds : DS} {i : Nat} {x' : Ten} {l' : List Rat}
+    (h : getitemXClass cfg tape ds i = .ok (x', l')) (hok : TapeOk tape) (hp : cfg.totalP = 1)
+    (hrank : cfg.unify = some .padOrCutEnd → ∀ j, j < ds.len → (ds.x i).rank = (ds.x j).rank) :
+    ∃ j lam, j < ds.len ∧ 0 ≤ lam ∧ lam ≤ 1 ∧ IsMixOf ds i j lam x' l' := by
+  rcases mix_convex_full h hok hrank with ⟨a, ht, hgt, _⟩ | ⟨a, j, alpha, lam, _, _, hj, h0, h1, hm⟩
+  · have : 0 ≤ a ∧ a < 1 := hok (.unif a) (by rw [ht]; simp)
+    rw [hp] at hgt
+    exact absurd hgt (by grind)
+  · exact ⟨j, lam, hj, h0, h1, hm⟩
+
+example : exCfg.totalP = 1 := rfl
+
+/-! ### gap 4 — every value of `mixup_unify_shapes_mode`
+
+The code knows three cases: `None` (assert equal shapes), `"pad_or_cut_end"` (`unify_shape`,
+`unify_loop_eq_closed_form`, `mixed_elements` above), any other string (`NotImplementedError`). -/
+
+/-- **Mode `None`: shapes must already agree.** The partner is used unchanged iff it has the rank and the
+    extents of the sample; otherwise the call dies with the `assert x.shape == x2.shape`. -/
+theorem unify_none (cfg : Cfg) (x x2 : Ten) (hmode : cfg.unify = none) :
+    (unifyWith cfg x x2 = .ok x2 ∧ x.rank = x2.rank ∧ ∀ d, d < x.rank → x.shape d = x2.shape d) ∨
+    (unifyWith cfg x x2 = .error .assertion ∧
+      ¬ (x.rank = x2.rank ∧ ∀ d, d < x.rank → x.shape d = x2.shape d)) := by
+  rcases c11x_unifyWith_cases cfg x x2 with ⟨_, hs, he⟩ | ⟨_, hs, he⟩ | ⟨hm, _⟩ | ⟨hm, _⟩
+  · exact Or.inl ⟨he, (c11x_sameShape_iff x x2).1 hs⟩
+  · refine Or.inr ⟨he, fun hc => ?_⟩
+    rw [(c11x_sameShape_iff x x2).2 hc] at hs
+    cases hs
+  · rw [hmode] at hm; cases hm
+  · rw [hmode] at hm; cases hm
+
+example : unifyWith ⟨1, 0, 1, some 1, none, none⟩ (exTen 1 3 2) (exTen 2 2 4) = .error .assertion := by
+  rcases unify_none ⟨1, 0, 1, some 1, none, none⟩ (exTen 1 3 2) (exTen 2 2 4) rfl with ⟨_, _, h⟩ | ⟨h, _⟩
+  · exact absurd (h 0 (by decide)) (by decide)
+  · exact h
+
+/-- **Any other mode string: `NotImplementedError`**, whatever the shapes. -/
+theorem unify_unknown_mode (cfg : Cfg) (x x2 : Ten) (hmode : cfg.unify = some .other) :
+    unifyWith cfg x x2 = .error .notImplemented := by
+  rcases c11x_unifyWith_cases cfg x x2 with ⟨hm, _⟩ | ⟨hm, _⟩ | ⟨hm, _⟩ | ⟨_, he⟩
+  · rw [hmode] at hm; cases hm
+  · rw [hmode] at hm; cases hm
+  · rw [hmode] at hm; cases hm
+  · exact he
+
+/-- **What a mixing call does, per mode.** For a call that mixes (first draw `a ≤ total_p`, not a cutmix draw,
+    labels inside the class range, `mixup_alpha` a number — all implied by an accepted constructor, see
+    `accepted_ctor_total`) with partner `j` and weight `lam`:
+    * mode `None`: if the partner has the sample's shape the result is `lam·x_i + (1-lam)·x_j` at EVERY index (no
+      padding, no cutting) with the mixed label; if not, `AssertionError`;
+    * mode `"pad_or_cut_end"`: always succeeds (the result is described by `mix_convex_full`);
+    * any other mode: `NotImplementedError`. -/
+theorem mixing_call_per_mode (cfg : Cfg) (ds : DS) (i j : Nat) (a alpha lam : Rat) (c1 c2 : List Rat)
+    (hle : ¬ a > cfg.totalP) (hnocut : ¬ a < cfg.cutmixP) (halpha : cfg.mixupAlpha = some alpha)
+    (hc1 : oneHot ds.nClasses (ds.cls i) = .ok c1) (hc2 : oneHot ds.nClasses (ds.cls j) = .ok c2) :
+    let call := getitemXClass cfg [.unif a, .int ds.len j, .beta alpha lam] ds i
+    let same := (ds.x i).rank = (ds.x j).rank ∧ ∀ d, d < (ds.x i).rank → (ds.x i).shape d = (ds.x j).shape d
+    (cfg.unify = none → same → call = .ok (mixTen lam (ds.x i) (ds.x j), mixRow lam c1 c2)) ∧
+    (cfg.unify = none → ¬ same → call = .error .assertion) ∧
+    (cfg.unify = some .padOrCutEnd →
+      call = .ok (mixTen lam (ds.x i) (unifyLoop (ds.x i) (ds.x j)), mixRow lam c1 c2)) ∧
+    (cfg.unify = some .other → call = .error .notImplemented) := by
+  have hev := c11x_getitem_three cfg ds i a j alpha lam c1 c2 hle hc1 hc2 (by simp [hnocut, halpha])
+  simp only [hnocut, if_false] at hev
+  refine ⟨?_, ?_, ?_, ?_⟩
+  · intro hm hs
+    rcases unify_none cfg (ds.x i) (ds.x j) hm with ⟨he, _⟩ | ⟨_, hn⟩
+    · rw [hev, he]
+    · exact absurd hs hn
+  · intro hm hs
+    rcases unify_none cfg (ds.x i) (ds.x j) hm with ⟨_, hy⟩ | ⟨he, _⟩
+    · exact absurd hy hs
+    · rw [hev, he]
+  · intro hm
+    rw [hev]
+    simp [unifyWith, hm]
+  · intro hm
+    rw [hev, unify_unknown_mode cfg _ _ hm]
+
+/-- mode `None` on the witness dataset (samples of shape `(3,2)` and `(2,4)`): `AssertionError` -/
+example : getitemXClass ⟨1, 0, 1, some (4/5), none, none⟩ exTape exDS 0 = .error .assertion := by
+  have h := (mixing_call_per_mode ⟨1, 0, 1, some (4/5), none, none⟩ exDS 0 1 (1/4) (4/5) (1/4) [1, 0] [0, 1]
+    (by decide +kernel) (by decide +kernel) rfl rfl rfl).2.1 rfl
+    (fun hs => absurd (hs.2 0 (by decide)) (by decide))
+  exact h
+
+/-! ### gap 3 — the joint request is coherent without a seed -/
+
+/-- **Clause "the label vector being mixed with the same partner and weight as the data", for the joint
+    request, seed or no seed.** `tapes` is arbitrary (every `getitem_xclass` call may see a different
+    generator, as it does when `seed is None`). For the layouts "x class" and "class x" the returned image and
+    label come out of ONE `getitem_xclass` call (one generator, consumed once), hence are either the untouched
+    pair or mixed with one partner `j` and one weight `lam`. -/
+theorem joint_request_coherent {cfg : Cfg} {tapes : Nat → Tape} {ds : DS} {i : Nat} {r : Req}
+    {ox : Option Ten} {ol : Option (List Rat)} (hr : r = .xclass ∨ r = .classx)
+    (h : modeGet cfg tapes ds i r = .ok (ox, ol)) (hok : ∀ k, TapeOk (tapes k))
+    (hrank : cfg.unify = some .padOrCutEnd → ∀ j, j < ds.len → (ds.x i).rank = (ds.x j).rank) :
+    ∃ x' l', ox = some x' ∧ ol = some l' ∧
+      (IsUntouched ds i x' l' ∨ ∃ j lam, j < ds.len ∧ 0 ≤ lam ∧ lam ≤ 1 ∧ IsMixOf ds i j lam x' l') := by
+  have key : ∀ k x' l', getitemXClass cfg (tapes k) ds i = .ok (x', l') →
+      (IsUntouched ds i x' l' ∨ ∃ j lam, j < ds.len ∧ 0 ≤ lam ∧ lam ≤ 1 ∧ IsMixOf ds i j lam x' l') := by
+    intro k x' l' hc
+    rcases mix_convex_full hc (hok k) hrank with ⟨_, _, _, hu⟩ | ⟨_, j, _, lam, _, _, hj, h0, h1, hm⟩
+    · exact Or.inl hu
+    · exact Or.inr ⟨j, lam, hj, h0, h1, hm⟩
+  rcases hr with rfl | rfl
+  · simp only [modeGet] at h
+    cases hc : getitemXClass cfg (tapes 0) ds i with
+    | error e => rw [hc] at h; cases h
+    | ok res =>
+      rw [hc] at h
+      simp only [Except.ok.injEq, Prod.mk.injEq] at h
+      exact ⟨res.1, res.2, h.1.symm, h.2.symm, key 0 res.1 res.2 hc⟩
+  · simp only [modeGet] at h
+    cases hc0 : getitemXClass cfg (tapes 0) ds i with
+    | error e => rw [hc0] at h; cases h
+    | ok res0 =>
+      rw [hc0] at h
+      cases hc : getitemXClass cfg (tapes 1) ds i with
+      | error e => rw [hc] at h; cases h
+      | ok res =>
+        rw [hc] at h
+        simp only [Except.ok.injEq, Prod.mk.injEq] at h
+        exact ⟨res.1, res.2, h.1.symm, h.2.symm, key 1 res.1 res.2 hc⟩
+
+/-! ### gap 2 — with a seed all request kinds describe the same draw (derived, not assumed) -/
+
+/-- a generator family for the examples: partner `(s+1) mod hi`, weight `1/4`, first draw `1/4` -/
+def exRng : Nat → Gen := fun s => ⟨1/4, fun hi => (s + 1) % hi, fun _ _ => 1/4⟩
+
+theorem exRng_ok (s : Nat) : (exRng s).Ok := by
+  refine ⟨?_, fun hi h => Nat.mod_lt _ h, fun _ _ => ?_⟩
+  · show (0 : Rat) ≤ 1/4 ∧ (1/4 : Rat) < 1
+    constructor <;> decide +kernel
+  · show (0 : Rat) ≤ 1/4 ∧ (1/4 : Rat) ≤ 1
+    constructor <;> decide +kernel
+
+/-- `exTape` is what a call takes from `default_rng(0)` of that family -/
+theorem exRng_tape : tapeFor (exRng 0) exCfg exDS = exTape := by
+  have h1 : ¬ (exRng 0).unif > exCfg.totalP := by decide +kernel
+  have h2 : ¬ (exRng 0).unif < exCfg.cutmixP := by decide +kernel
+  simp only [tapeFor, h1, h2, if_false]
+  rfl
+
+/-- **Adequacy of the generator model used for the seed clause**: `tapeFor g cfg ds` lists exactly the draws
+    one `getitem_xclass` call takes from generator `g` — the model consumes that tape completely and never
+    reports a tape mismatch, for every configuration, dataset and index. -/
+theorem generator_tape_consumed_exactly (g : Gen) (cfg : Cfg) (ds : DS) (i : Nat) :
+    getitemXClass cfg (tapeFor g cfg ds) ds i ≠ .error .tape :=
+  c11x_tapeFor_consumed g cfg ds i
+
+example : getitemXClass exCfg (tapeFor (exRng 0) exCfg exDS) exDS 0 ≠ .error .tape :=
+  generator_tape_consumed_exactly _ _ _ _
+
+/-- **Clause "with a seed set the image-only, label-only and joint requests describe the same draw".**
+    `rng` is the (arbitrary) function `s ↦ np.random.default_rng(s)`, `glob` the (arbitrary) values the global
+    numpy RNG would hand out; the wrapper's seed is `s`. The generator of every `getitem_xclass` call of a
+    request for index `i` is then `rng (s + i)` — a function of `(s, i)` only — so all four request layouts
+    return the components of the ONE call `getitemXClass cfg (tapeFor (rng (s + i)) cfg ds) ds i`, and fail
+    alike if that call fails. No hypothesis on the tapes: that they coincide is derived from the seeding. -/
+theorem seeded_requests_same_draw (rng : Nat → Gen) (glob : Nat → Nat) (s : Nat) (cfg : Cfg) (ds : DS)
+    (i : Nat) :
+    let call := getitemXClass cfg (tapeFor (rng (s + i)) cfg ds) ds i
+    let tapes := callTapes rng (some s) glob cfg ds i
+    (∀ x' l', call = .ok (x', l') →
+      modeGet cfg tapes ds i .xclass = .ok (some x', some l') ∧
+      modeGet cfg tapes ds i .classx = .ok (some x', some l') ∧
+      modeGet cfg tapes ds i .x = .ok (some x', none) ∧
+      modeGet cfg tapes ds i .cls = .ok (none, some l')) ∧
+    (∀ e, call = .error e → ∀ r, modeGet cfg tapes ds i r = .error e) := by
+  intro call tapes
+  have hseed : ∀ k, tapes k = tapeFor (rng (s + i)) cfg ds := fun _ => rfl
+  exact ⟨fun x' l' h => seeded_requests_agree hseed h, fun e h r => seeded_requests_agree_error hseed h r⟩
+
+/-- **The same clause in the terms of the property**: what the image-only request returns and what the
+    label-only request returns (two separate requests, two separate calls) are mixed with the same partner
+    `j = rng(s+i).integers(len)` and the same weight `lam = rng(s+i).beta(alpha, alpha)` — or both untouched. -/
+theorem seeded_image_and_label_share_partner_and_weight (rng : Nat → Gen) (glob glob' : Nat → Nat) (s : Nat)
+    (cfg : Cfg) (ds : DS) (i : Nat) {x' : Ten} {l' : List Rat}
+    (hx : modeGet cfg (callTapes rng (some s) glob cfg ds i) ds i .x = .ok (some x', none))
+    (hl : modeGet cfg (callTapes rng (some s) glob' cfg ds i) ds i .cls = .ok (none, some l'))
+    (hg : (rng (s + i)).Ok) (hlen : 0 < ds.len)
+    (hrank : cfg.unify = some .padOrCutEnd → ∀ j, j < ds.len → (ds.x i).rank = (ds.x j).rank) :
+    IsUntouched ds i x' l' ∨
+    ∃ alpha, (rng (s + i)).int ds.len < ds.len ∧
+      0 ≤ (rng (s + i)).beta ds.len alpha ∧ (rng (s + i)).beta ds.len alpha ≤ 1 ∧
+      IsMixOf ds i ((rng (s + i)).int ds.len) ((rng (s + i)).beta ds.len alpha) x' l' := by
+  have hcall : getitemXClass cfg (tapeFor (rng (s + i)) cfg ds) ds i = .ok (x', l') := by
+    simp only [modeGet, callTapes, callSeed] at hx hl
+    cases hc : getitemXClass cfg (tapeFor (rng (s + i)) cfg ds) ds i with
+    | error e => rw [hc] at hx; cases hx
+    | ok res =>
+      rw [hc] at hx hl
+      simp only [Except.ok.injEq, Prod.mk.injEq, Option.some.injEq, and_true, true_and] at hx hl
+      rw [← hx, ← hl]
+  rcases mix_convex_full hcall (c11x_tapeFor_ok hg cfg ds hlen) hrank with
+    ⟨_, _, _, hu⟩ | ⟨a, j, alpha, lam, ht, _, hj, h0, h1, hm⟩
+  · exact Or.inl hu
+  · obtain ⟨_, hj', hl'⟩ := c11x_tapeFor_three ht
+    subst hj' hl'
+    exact Or.inr ⟨alpha, hj, h0, h1, hm⟩
+
+/-- non-vacuity: seeded requests on the witness dataset; all four layouts succeed with the same pair -/
+example : ∃ x' l', modeGet exCfg (callTapes exRng (some 0) (fun k => k) exCfg exDS 0) exDS 0 .x = .ok (some x', none) ∧
+    modeGet exCfg (callTapes exRng (some 0) (fun k => 7 * k) exCfg exDS 0) exDS 0 .cls = .ok (none, some l') ∧
+    IsMixOf exDS 0 1 (1/4) x' l' := by
+  obtain ⟨x', l', h⟩ := ex_ok
+  have hc : getitemXClass exCfg (tapeFor (exRng (0 + 0)) exCfg exDS) exDS 0 = .ok (x', l') := by
+    rw [show (0 + 0 : Nat) = 0 from rfl, exRng_tape]; exact h
+  have h1 := ((seeded_requests_same_draw exRng (fun k => k) 0 exCfg exDS 0).1 x' l' hc).2.2.1
+  have h2 := ((seeded_requests_same_draw exRng (fun k => 7 * k) 0 exCfg exDS 0).1 x' l' hc).2.2.2
+  refine ⟨x', l', h1, h2, ?_⟩
+  rcases seeded_image_and_label_share_partner_and_weight exRng _ _ 0 exCfg exDS 0 h1 h2 (exRng_ok _)
+    (by decide) (fun _ j hj => by
+      have : j = 0 ∨ j = 1 := by simp only [exDS] at hj; omega
+      rcases this with rfl | rfl <;> rfl) with hu | ⟨alpha, _, _, _, hm⟩
+  · -- the untouched alternative is excluded by the label `[1/4, 3/4]`
+    have hv := ex_values
+    rw [h] at hv
+    simp only [Bool.and_eq_true, beq_iff_eq] at hv
+    obtain ⟨_, _, hoh⟩ := hu.2
+    have := hoh 0 (by decide)
+    rw [hv.1.1.1.1] at this
+    exact absurd this (by decide +kernel)
+  · exact hm
+
+/-- the seed matters: WITHOUT a seed the label-only request (generator seeded by the global RNG, here with `1`)
+    and the joint request (here with `0`) describe different draws — partner `0` vs partner `1` -/
+example :
+    (match modeGet exCfg (callTapes exRng none (fun _ => 0) exCfg exDS 0) exDS 0 .xclass,
+           modeGet exCfg (callTapes exRng none (fun _ => 1) exCfg exDS 0) exDS 0 .cls with
+     | .ok (_, some l), .ok (_, some l') => l == [1/4, 3/4] && l' == [1, 0]
+     | _, _ => false) = true := by decide +kernel
+
+/-! ### gap 5 — the constructor and totality -/
+
+/-- **Which configurations `KDMixWrapper.__init__` accepts** (`CtorAccepts`, Model/C11Spec.lean): at least one
+    of the probabilities given; both in `[0,1]`; their float sum in `(0,1]`; `mixup_alpha` a positive number iff
+    `mixup_p ≠ 0` and `None` otherwise (and then no unify mode either); the same for `cutmix_alpha` / `cutmix_p`.
+    An accepted call stores exactly its arguments (`cfgOf`), every other call dies with an `AssertionError`. -/
+theorem ctor_accepts_iff (a : CtorArgs) :
+    (∀ cfg, ctor a = .ok cfg ↔ CtorAccepts a ∧ cfg = cfgOf a) ∧
+    (¬ CtorAccepts a → ctor a = .error .assertion) := by
+  refine ⟨c11x_ctor_iff a, fun hn => ?_⟩
+  cases hc : ctor a with
+  | ok cfg => exact absurd ((c11x_ctor_iff a cfg).1 hc).1 hn
+  | error e => rw [c11x_ctor_error a e hc]
+
+/-- the witness configuration is the stored form of an accepted constructor call
+    (`mixup_p=1, mixup_alpha=0.8, mixup_unify_shapes_mode="pad_or_cut_end"`) -/
+def exArgs : CtorArgs := ⟨some 1, none, some (4/5), none, some .padOrCutEnd, 1⟩
+
+example : ctor exArgs = .ok (cfgOf exArgs) ∧ (cfgOf exArgs).unify = exCfg.unify := by
+  exact ⟨c11x_ctor_of_cond (by decide +kernel), rfl⟩
+
+/-- alpha without probability is rejected -/
+example : ctor ⟨some 1, none, some 1, some 1, none, 1⟩ = .error .assertion :=
+  c11x_ctor_of_not_cond (by decide +kernel)
+
+/-- **Totality: an accepted constructor and the generator contract imply the `.ok` and `TapeOk` hypotheses of
+    all theorems above.** Let the constructor accept `a` with `cutmix_p` absent or `0` (a cutmix draw is a
+    `NotImplementedError`, see `cutmix_draw_not_implemented`), `total_p` the exact sum (with `cutmix_p = 0`
+    the float sum `mixup_p + 0.` is exact), and a known unify mode. Let the dataset be non-empty with labels
+    inside the class range, and — for mode `None` only — the partner candidates have sample `i`'s shape. Then
+    for every generator obeying numpy's contract the call succeeds and its tape satisfies `TapeOk`. -/
+theorem accepted_ctor_total {a : CtorArgs} {cfg : Cfg} (hc : ctor a = .ok cfg)
+    (hcut : orZero a.cutmixP = 0) (hsum : a.floatSum = orZero a.mixupP + orZero a.cutmixP)
+    (hmode : a.unify ≠ some .other)
+    (g : Gen) (hg : g.Ok) (ds : DS) (i : Nat) (hlen : 0 < ds.len) (hi : i < ds.len)
+    (hcls : ∀ k, k < ds.len → ds.cls k < ds.nClasses)
+    (hshape : a.unify = none → ∀ j, j < ds.len →
+      (ds.x i).rank = (ds.x j).rank ∧ ∀ d, d < (ds.x i).rank → (ds.x i).shape d = (ds.x j).shape d) :
+    TapeOk (tapeFor g cfg ds) ∧ ∃ x' l', getitemXClass cfg (tapeFor g cfg ds) ds i = .ok (x', l') := by
+  refine ⟨c11x_tapeFor_ok hg cfg ds hlen, ?_⟩
+  obtain ⟨hacc, hcfg⟩ := (c11x_ctor_iff a cfg).1 hc
+  obtain ⟨_, _, _, hfs, hma, _⟩ := hacc
+  obtain ⟨hu, hint, _⟩ := hg
+  obtain ⟨c1, hc1⟩ := c11x_oneHot_of_lt (hcls i hi)
+  have hj := hint ds.len hlen
+  obtain ⟨c2, hc2⟩ := c11x_oneHot_of_lt (hcls _ hj)
+  subst hcfg
+  by_cases hgt : g.unif > a.floatSum
+  · have ht : tapeFor g (cfgOf a) ds = [.unif g.unif] := by simp [tapeFor, cfgOf, hgt]
+    rw [ht]
+    exact ⟨_, _, c11x_getitem_one (cfgOf a) ds i g.unif c1 hgt hc1⟩
+  · have hnocut : ¬ g.unif < orZero a.cutmixP := by rw [hcut]; grind
+    have hmp : orZero a.mixupP ≠ 0 := by
+      intro h0
+      rw [hsum, h0, hcut] at hfs
+      exact absurd hfs.1 (by grind)
+    simp only [hmp, if_false] at hma
+    obtain ⟨α, hα, _⟩ := hma
+    have ht : tapeFor g (cfgOf a) ds =
+        [.unif g.unif, .int ds.len (g.int ds.len), .beta α (g.beta ds.len α)] := by
+      simp [tapeFor, cfgOf, hgt, hnocut, hα]
+    rw [ht]
+    have hev := c11x_getitem_three (cfgOf a) ds i g.unif (g.int ds.len) α (g.beta ds.len α) c1 c2 hgt hc1 hc2
+      (by simp [cfgOf, hnocut, hα])
+    have hnocut' : ¬ g.unif < (cfgOf a).cutmixP := hnocut
+    simp only [hnocut', if_false] at hev
+    rcases c11x_unifyWith_cases (cfgOf a) (ds.x i) (ds.x (g.int ds.len)) with
+      ⟨_, _, he⟩ | ⟨hm, hs, _⟩ | ⟨_, he⟩ | ⟨hm, _⟩
+    · rw [he] at hev; exact ⟨_, _, hev⟩
+    · have := (c11x_sameShape_iff _ _).2 (hshape hm _ hj)
+      rw [this] at hs; cases hs
+    · rw [he] at hev; exact ⟨_, _, hev⟩
+    · exact absurd hm hmode
+
+/-- non-vacuity and use: the accepted witness constructor gives a successful call, to which
+    `mix_convex_full` / `label_simplex` apply without further hypotheses on the call -/
+example : ∃ x' l', getitemXClass (cfgOf exArgs) (tapeFor (exRng 0) (cfgOf exArgs) exDS) exDS 0 = .ok (x', l') ∧
+    l'.sum = 1 := by
+  obtain ⟨hok, x', l', h⟩ := accepted_ctor_total (a := exArgs) (cfg := cfgOf exArgs)
+    (c11x_ctor_of_cond (by decide +kernel)) rfl
+    (by decide +kernel) (by decide) (exRng 0) (exRng_ok 0) exDS 0 (by decide) (by decide)
+    (fun k hk => by
+      have : k = 0 ∨ k = 1 := by simp only [exDS] at hk; omega
+      rcases this with rfl | rfl <;> decide)
+    (fun hn => by cases hn)
+  exact ⟨x', l', h, (label_simplex h hok).2.2⟩
+
+/-- **and for every request layout, seeded or not**: under the hypotheses of `accepted_ctor_total` (for every
+    generator the calls may create) `ModeWrapper`'s request succeeds. -/
+theorem accepted_ctor_requests_total {a : CtorArgs} {cfg : Cfg} (hc : ctor a = .ok cfg)
+    (hcut : orZero a.cutmixP = 0) (hsum : a.floatSum = orZero a.mixupP + orZero a.cutmixP)
+    (hmode : a.unify ≠ some .other)
+    (rng : Nat → Gen) (hg : ∀ s, (rng s).Ok) (seed : Option Nat) (glob : Nat → Nat)
+    (ds : DS) (i : Nat) (hlen : 0 < ds.len) (hi : i < ds.len)
+    (hcls : ∀ k, k < ds.len → ds.cls k < ds.nClasses)
+    (hshape : a.unify = none → ∀ j, j < ds.len →
+      (ds.x i).rank = (ds.x j).rank ∧ ∀ d, d < (ds.x i).rank → (ds.x i).shape d = (ds.x j).shape d)
+    (r : Req) : ∃ res, modeGet cfg (callTapes rng seed glob cfg ds i) ds i r = .ok res := by
+  have key : ∀ k, ∃ x' l', getitemXClass cfg (callTapes rng seed glob cfg ds i k) ds i = .ok (x', l') :=
+    fun k => (accepted_ctor_total hc hcut hsum hmode (rng (callSeed seed glob i k)) (hg _) ds i hlen hi hcls
+      hshape).2
+  obtain ⟨x0, l0, h0⟩ := key 0
+  obtain ⟨x1, l1, h1⟩ := key 1
+  cases r <;> simp [modeGet, h0, h1]
+
+/-- **A cutmix draw is a `NotImplementedError`** (the reason for `cutmix_p = 0` in the totality theorems): for
+    an accepted constructor, a non-empty dataset with labels in range and a generator obeying the contract whose
+    first draw selects cutmix (`apply ≤ total_p` and `apply < cutmix_p`), the call raises. -/
+theorem cutmix_draw_not_implemented {a : CtorArgs} {cfg : Cfg} (hc : ctor a = .ok cfg)
+    (g : Gen) (hg : g.Ok) (ds : DS) (i : Nat) (hlen : 0 < ds.len) (hi : i < ds.len)
+    (hcls : ∀ k, k < ds.len → ds.cls k < ds.nClasses)
+    (hle : ¬ g.unif > cfg.totalP) (hcutdraw : g.unif < cfg.cutmixP) :
+    getitemXClass cfg (tapeFor g cfg ds) ds i = .error .notImplemented := by
+  obtain ⟨hacc, hcfg⟩ := (c11x_ctor_iff a cfg).1 hc
+  obtain ⟨_, _, _, _, _, hca⟩ := hacc
+  obtain ⟨hu, hint, _⟩ := hg
+  obtain ⟨c1, hc1⟩ := c11x_oneHot_of_lt (hcls i hi)
+  have hj := hint ds.len hlen
+  obtain ⟨c2, hc2⟩ := c11x_oneHot_of_lt (hcls _ hj)
+  subst hcfg
+  have hcp : orZero a.cutmixP ≠ 0 := by
+    intro h0
+    have : g.unif < orZero a.cutmixP := hcutdraw
+    rw [h0] at this
+    exact absurd this (by grind)
+  simp only [hcp, if_false] at hca
+  obtain ⟨α, hα, _⟩ := hca
+  have hcd : g.unif < orZero a.cutmixP := hcutdraw
+  have hle' : ¬ g.unif > a.floatSum := hle
+  have ht : tapeFor g (cfgOf a) ds =
+      [.unif g.unif, .int ds.len (g.int ds.len), .beta α (g.beta ds.len α)] := by
+    simp [tapeFor, cfgOf, hle', hcd, hα]
+  rw [ht]
+  have hev := c11x_getitem_three (cfgOf a) ds i g.unif (g.int ds.len) α (g.beta ds.len α) c1 c2 hle hc1 hc2
+    (by simp [cfgOf, hcd, hα])
+  rw [hev]
+  simp [hcutdraw]
+
+example : ∃ (a : CtorArgs) (g : Gen), ctor a = .ok (cfgOf a) ∧ g.Ok ∧ ¬ g.unif > (cfgOf a).totalP ∧
+    g.unif < (cfgOf a).cutmixP :=
+  ⟨⟨some (1/2), some (1/2), some 1, some 1, none, 1⟩, exRng 0, c11x_ctor_of_cond (by decide +kernel), exRng_ok 0,
+    by decide +kernel, by decide +kernel⟩
+
+/-- non-vacuity of `joint_request_coherent` WITHOUT a seed: the two calls of the "class x" layout get different
+    generators (`default_rng(0)`, `default_rng(2)`); the request succeeds and is coherent -/
+example : ∃ x' l', modeGet exCfg (callTapes exRng none (fun k => 2 * k) exCfg exDS 0) exDS 0 .classx =
+      .ok (some x', some l') ∧
+    (IsUntouched exDS 0 x' l' ∨ ∃ j lam, j < exDS.len ∧ 0 ≤ lam ∧ lam ≤ 1 ∧ IsMixOf exDS 0 j lam x' l') := by
+  have hcls : ∀ k, k < exDS.len → exDS.cls k < exDS.nClasses := fun k hk => by
+    have : k = 0 ∨ k = 1 := by simp only [exDS] at hk; omega
+    rcases this with rfl | rfl <;> decide
+  have hrank : exCfg.unify = some .padOrCutEnd → ∀ j, j < exDS.len → (exDS.x 0).rank = (exDS.x j).rank :=
+    fun _ j hj => by
+      have : j = 0 ∨ j = 1 := by simp only [exDS] at hj; omega
+      rcases this with rfl | rfl <;> rfl
+  have hc : ctor ⟨some 1, none, some (4/5), none, some .padOrCutEnd, 1⟩ = .ok exCfg :=
+    c11x_ctor_of_cond (by decide +kernel)
+  obtain ⟨res, hres⟩ := accepted_ctor_requests_total hc rfl (by decide +kernel) (by decide) exRng exRng_ok none
+    (fun k => 2 * k) exDS 0 (by decide) (by decide) hcls (fun hn => by cases hn) .classx
+  obtain ⟨x', l', h1, h2, hcoh⟩ := joint_request_coherent (Or.inr rfl) hres
+    (fun k => c11x_tapeFor_ok (exRng_ok _) exCfg exDS (by decide)) hrank
+  refine ⟨x', l', ?_, hcoh⟩
+  rw [hres, ← h1, ← h2]
 
 end KDVerif.C11
